@@ -17,7 +17,7 @@ ASSUMPTIONS = ["aretry / alru_cache / acached_per_instance are exercised on the 
 DECOS = ["asynq", "pure", "proxy", "pair", "proxy_pair", "mad", "dedupe", "aretry", "alru", "per_instance"]
 BINDINGS = ["function", "instance", "class", "subclass", "classmethod", "staticmethod"]
 SIGS = {"x": "x", "x_y": "x, y=10", "x_kz": "x, *, z=20", "x_y_kz": "x, y=10, *, z=20"}
-BODIES = ["plain", "gen", "block", "raise", "retfuture"]
+BODIES = ["plain", "gen", "block", "raise", "retfuture", "raise_base"]
 FUNCTION_STYLE = ("aretry", "alru", "per_instance")
 
 
@@ -41,12 +41,14 @@ def body_src(kind, tag, recv, indent="    "):
     if kind == "retfuture" and tag != "sync":
         # the body's *result* is itself a future object (a handle the caller is meant to receive as is)
         return pre + indent + "return ConstFuture([%r, %s, x, _y, _z])\n" % (tag, recv)
-    if kind == "plain" or tag == "sync" and kind != "raise":
+    if kind == "plain" or tag == "sync" and kind not in ("raise", "raise_base"):
         return pre + indent + "return [%r, %s, x, _y, _z]\n" % (tag, recv)
     if kind == "gen":
         return pre + indent + "v = yield child.asynq(x)\n" + indent + "return [%r, %s, v, _y, _z]\n" % (tag, recv)
     if kind == "block":
         return pre + indent + "v = yield DebugBatchItem('c09', x)\n" + indent + "return [%r, %s, v, _y, _z]\n" % (tag, recv)
+    if kind == "raise_base":
+        return pre + indent + "raise BoomBase([%r, %s, x, _y, _z])\n" % (tag, recv)
     return pre + indent + "raise Boom([%r, %s, x, _y, _z])\n" % (tag, recv)
 
 
@@ -99,7 +101,8 @@ def module_src(deco, sig, kind):
         src += "@asynq()\ndef _inner_%s(recv, x, y, z):\n" % k
         src += {"plain": "    return ['async', recv, x, y, z]\n", "gen": "    v = yield child.asynq(x)\n    return ['async', recv, v, y, z]\n",
                 "block": "    v = yield DebugBatchItem('c09', x)\n    return ['async', recv, v, y, z]\n", "raise": "    raise Boom(['async', recv, x, y, z])\n",
-                "retfuture": "    return ConstFuture(['async', recv, x, y, z])\n"}[k] + "\n"
+                "retfuture": "    return ConstFuture(['async', recv, x, y, z])\n",
+                "raise_base": "    raise BoomBase(['async', recv, x, y, z])\n"}[k] + "\n"
     if not (deco == "per_instance"):
         src += define(deco, kind, "f", params, "", "None", "", sig) + "\n"
     src += "class Base(object):\n    def __init__(self, nm, truthy=True):\n        self.nm = nm\n        self.truthy = truthy\n\n    def __bool__(self):\n        return self.truthy\n\n"
@@ -122,7 +125,7 @@ def load(deco, sig, kind):
         from asynq.tools import deduplicate, aretry, alru_cache, acached_per_instance
         from asynq.batching import DebugBatchItem
         ns = {"asynq": A, "async_proxy": async_proxy, "make_async_decorator": make_async_decorator, "deduplicate": deduplicate, "aretry": aretry,
-              "alru_cache": alru_cache, "acached_per_instance": acached_per_instance, "DebugBatchItem": DebugBatchItem, "Boom": Boom, "Retry": Retry, "ConstFuture": asynq.ConstFuture}
+              "alru_cache": alru_cache, "acached_per_instance": acached_per_instance, "DebugBatchItem": DebugBatchItem, "Boom": Boom, "BoomBase": BoomBase, "Retry": Retry, "ConstFuture": asynq.ConstFuture}
         src = module_src(deco, sig, kind)
         exec(compile(src, "<c09 %s %s %s>" % key, "exec"), ns)
         _MODS[key] = ns
@@ -137,6 +140,10 @@ class Retry(Exception):
     pass
 
 
+class BoomBase(BaseException):
+    """an outcome that is not an Exception subclass (an abort signal)"""
+
+
 def outcome(thunk):
     try:
         r = thunk()
@@ -146,6 +153,8 @@ def outcome(thunk):
         return ["ok", r]
     except Boom as e:
         return ["exc", e.args[0]]
+    except BoomBase as e:
+        return ["excbase", e.args[0]]
     except BaseException as e:
         return ["other", type(e).__name__, str(e)[:160]]
 
@@ -205,11 +214,13 @@ def check(case, ctx):
     a = tuple(pre + args)
     xv = ["child", x] if kind == "gen" else x
     exp_async = ["exc", ["async", recv, x, y_eff, z_eff]] if kind == "raise" else ["ok", ["async", recv, xv, y_eff, z_eff]]
+    if kind == "raise_base":
+        exp_async = ["excbase", ["async", recv, x, y_eff, z_eff]]
     if kind == "retfuture":
         exp_async = ["ok", ["<future object>", ["async", recv, x, y_eff, z_eff]]]
     exp_sync = exp_async
     if deco in ("pair", "proxy_pair"):
-        exp_sync = ["exc", ["sync", recv, x, y_eff, z_eff]] if kind == "raise" else ["ok", ["sync", recv, x, y_eff, z_eff]]
+        exp_sync = ["exc", ["sync", recv, x, y_eff, z_eff]] if kind == "raise" else ["excbase", ["sync", recv, x, y_eff, z_eff]] if kind == "raise_base" else ["ok", ["sync", recv, x, y_eff, z_eff]]
     pure = deco == "pure"
     got = {}
     if pure:
